@@ -163,7 +163,11 @@ class FreshTwin:
                 with os.fdopen(rw, "wb") as f:
                     f.write(payload)
             finally:
-                os._exit(0)
+                try:
+                    if fm._state.get("pid") == os.getpid():
+                        fm._cleanup()          # the twin's own scratch directory
+                finally:
+                    os._exit(0)
         os.close(jr)
         os.close(rw)
         self.jw, self.rr = jw, rr
